@@ -429,7 +429,7 @@ func genComponent(r *hx.Run) {
 	rng := r.Rng
 	n := 260
 	if r.Tier == "thorough" {
-		n = 2500
+		n = 5000
 	}
 	pick := func(xs ...string) string { return xs[rng.Intn(len(xs))] }
 	randPorts := func() string {
